@@ -77,7 +77,13 @@ func newSnapshotRecording() error {
 func snapshotRecordingTriggers(window window.Window) {
 
 	// Wait for motion processor to start
-	for processor == nil {
+	for {
+		mu.Lock()
+		started := processor != nil
+		mu.Unlock()
+		if started {
+			break
+		}
 		time.Sleep(time.Second)
 	}
 
